@@ -435,7 +435,7 @@ TREE_MUTATIONS = ["unknown_tag", "ext_not_allowed", "ext_existing_term", "requir
                   "unique_twice", "empty_group", "onset_extra_group", "onset_no_def", "offset_with_group",
                   "duration_two_groups", "ext_bad_char", "toplevel_group_nested_twin",
                   "duplicate_among_same_base", "two_toplevel_tags_in_group", "empty_group_twice", "def_value_bad_char",
-                  "def_value_wrong_class"]
+                  "def_value_wrong_class", "placeholder_on_plain_tag", "placeholder_twice_in_tag", "placeholder_bad_unit"]
 TEXT_MUTATIONS = ["paren_extra_open", "paren_extra_close", "paren_removed", "paren_wrong_order", "double_comma",
                   "leading_comma", "trailing_comma", "comma_missing_before_group", "comma_missing_after_group",
                   "forbidden_char"]
@@ -513,6 +513,12 @@ def mutated(draw, ann, kinds=None, start=0):
             ok = (not allow_ph) and bool(unused(pl.valued))
         elif k == "duplicate_tag_value_case":
             ok = bool(unused(pl.extendable))
+        elif k == "placeholder_on_plain_tag":
+            ok = allow_ph and bool([n for n in unused(pl.extendable) if n.placeholder is None])
+        elif k == "placeholder_twice_in_tag":
+            ok = allow_ph and bool(unused(pl.valued))
+        elif k == "placeholder_bad_unit":
+            ok = allow_ph and any(m.node_unit_classes(n) for n in unused(pl.valued))
         elif k == "duplicate_among_same_base":
             ok = bool(unused(pl.valued))
         elif k == "two_toplevel_tags_in_group":
@@ -637,6 +643,20 @@ def mutated(draw, ann, kinds=None, start=0):
         d = pick([d for d in defs if not d["takes"]])
         _insert_somewhere(draw, tree, make_tag(f"Def/{d['name']}/3", "bad", kind="bad"))
         expect = "DEF_INVALID"
+    elif kind == "placeholder_on_plain_tag":
+        # placeholders are allowed, but '#' stands on a tag that takes no value (it would be an extension named '#')
+        node = pick([n for n in unused(pl.extendable) if n.placeholder is None])
+        _insert_somewhere(draw, tree, make_tag(f"{spelled(draw, node, m)}/#", "bad", kind="bad"))
+        expect = "PLACEHOLDER_INVALID"
+    elif kind == "placeholder_twice_in_tag":
+        node = pick(unused(pl.valued))
+        _insert_somewhere(draw, tree, make_tag(f"{spelled(draw, node, m)}/{draw(st.sampled_from(['##', '#-#', '# #']))}",
+                                               "bad", kind="bad"))
+        expect = "PLACEHOLDER_INVALID"
+    elif kind == "placeholder_bad_unit":
+        node = pick([n for n in unused(pl.valued) if m.node_unit_classes(n)])
+        _insert_somewhere(draw, tree, make_tag(f"{spelled(draw, node, m)}/# qzxq", "bad", kind="bad"))
+        expect = "UNITS_INVALID"
     elif kind == "def_value_wrong_class":
         # a Def whose value is not of the class its placeholder node takes: a wrongly valued Def
         d = pick(_name_class_defs(defs, m, "numericClass"))
